@@ -40,7 +40,7 @@ def edge_condition(fn, pv, d, s):
     return None
 
 
-def conditions(fn, pv, bb):
+def conditions(fn, pv, bb, _depth=0):
     cfg = fn.cfg
     out = []
     chain = cfg.dom_chain(bb)  # bb, idom(bb), ..., 0
@@ -56,8 +56,45 @@ def conditions(fn, pv, bb):
         c = edge_condition(fn, pv, d, cands[0])
         if c is not None:
             out.append(c)
+        elif _depth < 3:
+            # a boolean materialised on the way (`matches!(..)`, `let ok = a || b; if ok`): the conditions under
+            # which it received the value this edge requires
+            for c2 in reversed(_materialised(fn, pv, d, cands[0], _depth)):
+                if c2 not in out:
+                    out.append(c2)
     out.reverse()
-    return out
+    seen = []
+    for c in out:
+        if c not in seen:
+            seen.append(c)
+    return seen
+
+
+def _materialised(fn, pv, d, s, depth):
+    t = fn.blocks[d]["term"]
+    op = t["op"]
+    if op["k"] not in ("copy", "move") or op["place"]["p"] or t.get("ty") != "bool":
+        return []
+    vals = [v for v, b in t["targets"] if b == s]
+    if s == t["otherwise"] and not vals and len(t["targets"]) == 1:
+        want = not bool(t["targets"][0][0])
+    elif len(vals) == 1 and s != t["otherwise"]:
+        want = bool(vals[0])
+    else:
+        return []
+    ds = pv.reaching(op["place"]["l"], d, "term")
+    if -1 in ds or len(ds) < 2:
+        return []
+    hits = []
+    for di in ds:
+        _, dbb, didx, payload = pv._defs[di]
+        if didx == "term" or payload["k"] != "use" or payload["op"]["k"] != "const" or not isinstance(payload["op"].get("val"), bool):
+            return []
+        if payload["op"]["val"] == want:
+            hits.append(dbb)
+    if len(hits) != 1:
+        return []
+    return conditions(fn, pv, hits[0], depth + 1)
 
 
 def normalize_bool_cond(c):
@@ -85,8 +122,42 @@ def outcomes(fn, pv):
         t = b["term"]
         if t["k"] == "call" and t["dest"]["l"] == 0 and not t["dest"]["p"]:
             ct = pv.call_term(bi)
-            out.append(_classify(ct, bi, "term", fn, pv))
+            o = _classify(ct, bi, "term", fn, pv)
+            out.extend(_split_propagate(o, fn, pv) or [o])
     return out
+
+
+def _split_propagate(o, fn, pv):
+    """`R?` where R has several definitions (the arms of a match that each build Ok(..), Err(..) or call something
+    - typically an inlined helper): one outcome per arm, located at the arm; Ok arms are no rejection"""
+    if o["kind"] != "propagate" or o["inner"][0] != "phi":
+        return None
+    a = o["term"][2][0]
+    try:
+        site = a[1][1][3]
+    except (IndexError, TypeError):
+        return None
+    if not site or site[0] != fn.key:
+        return None
+    from .codec import _def_stmts
+    from .prov import always_err_fn
+    bt = fn.blocks[site[1]]["term"]
+    res = []
+    for term, dbb, payload in _def_stmts(pv, bt["args"][0], site[1], "term"):
+        if term[0] == "aggr" and term[1] == "core::result::Result":
+            if term[2] == "Ok":
+                continue
+            res.append({"kind": "err", "term": term, "inner": term[3][0][1] if term[3] else None, "bb": dbb, "idx": "term",
+                        "conds": conditions(fn, pv, dbb), "line": fn.blocks[dbb]["term"].get("line"), "via": o["bb"]})
+        elif is_call(term) and always_err_fn(fn.prog, term[1]):
+            res.append({"kind": "call", "term": term, "inner": term, "bb": dbb, "idx": "term",
+                        "conds": conditions(fn, pv, dbb), "line": fn.blocks[dbb]["term"].get("line"), "via": o["bb"]})
+        elif is_call(term):
+            res.append({"kind": "propagate", "term": o["term"], "inner": term, "bb": dbb, "idx": "term",
+                        "conds": conditions(fn, pv, dbb), "line": fn.blocks[dbb]["term"].get("line"), "via": o["bb"]})
+        else:
+            return None
+    return res
 
 
 def _classify(t, bb, idx, fn, pv):
@@ -148,3 +219,93 @@ def path_variants(prog, pv, conds):
             subj, names = r
             out[subj] = out[subj] & names if subj in out else set(names)
     return out
+
+
+class TooManyPaths(Exception):
+    pass
+
+
+def path_rows(fn, pv, limit=4000):
+    """every acyclic entry-to-return path of a (loop-free) function as a row
+        {"conds": [edge conditions in path order], "term": value of the return place on that path, "kind", "bb"}
+    Unlike conditions(), which keeps only the decisions common to ALL paths into a block, this keeps arms that share
+    a block apart (or-patterns, `a || b`), at the price of enumerating paths.  Paths through back edges are cut."""
+    rows = []
+    n = [0]
+
+    def last_ret_def(path):
+        for bb in reversed(path):
+            b = fn.blocks[bb]
+            t = b["term"]
+            if t["k"] == "call" and t["dest"]["l"] == 0 and not t["dest"]["p"] and bb != path[-1]:
+                return bb, "term"
+            for si in range(len(b["stmts"]) - 1, -1, -1):
+                s = b["stmts"][si]
+                if s["k"] == "assign" and s["dst"]["l"] == 0 and not s["dst"]["p"]:
+                    return bb, si
+        return None
+
+    def chase(path, d, depth=0):
+        """follow `x = move y` backwards along THIS path to the statement that produced the value"""
+        bb, si = d
+        if si == "term" or depth > 8:
+            return d
+        rv = fn.blocks[bb]["stmts"][si]["rv"]
+        if rv["k"] != "use" or rv["op"]["k"] not in ("copy", "move") or rv["op"]["place"]["p"]:
+            return d
+        l = rv["op"]["place"]["l"]
+        pos = len(path) - 1 - path[::-1].index(bb)
+        for pi in range(pos, -1, -1):
+            b = fn.blocks[path[pi]]
+            hi = si if pi == pos else len(b["stmts"])
+            if pi != pos:
+                tt = b["term"]
+                if tt["k"] == "call" and tt["dest"]["l"] == l and not tt["dest"]["p"]:
+                    return (path[pi], "term")
+            for sj in range(hi - 1, -1, -1):
+                s = b["stmts"][sj]
+                if s["k"] == "assign" and s["dst"]["l"] == l and not s["dst"]["p"]:
+                    return chase(path, (path[pi], sj), depth + 1)
+        return d
+
+    def go(bb, path, conds):
+        n[0] += 1
+        if n[0] > limit:
+            raise TooManyPaths(fn.key)
+        path = path + [bb]
+        t = fn.blocks[bb]["term"]
+        k = t["k"]
+        if k == "return":
+            d = last_ret_def(path)
+            if d is None:
+                term = ("undef", 0)
+                o = {"kind": "value", "term": term, "inner": term, "bb": bb, "idx": "term"}
+            elif d[1] == "term":
+                o = _classify(pv.call_term(d[0]), d[0], "term", fn, pv)
+            else:
+                d = chase(path, d)
+                if d[1] == "term":
+                    o = _classify(pv.call_term(d[0]), d[0], "term", fn, pv)
+                else:
+                    st = fn.blocks[d[0]]["stmts"][d[1]]
+                    o = _classify(pv.rvalue_term(st["rv"], d[0], d[1]), d[0], d[1], fn, pv)
+            rows.append({"conds": list(conds), "term": o["term"], "kind": o["kind"], "inner": o["inner"], "bb": o["bb"], "path": path})
+            return
+        if k == "call" and (t.get("callee") or {}).get("never") or (k == "call" and t.get("target") is None):
+            ct = pv.call_term(bb)
+            rows.append({"conds": list(conds), "term": ct, "kind": "diverge", "inner": ct, "bb": bb, "path": path})
+            return
+        if k == "switch":
+            for s in fn.succs(bb):
+                if s in path:
+                    continue
+                c = edge_condition(fn, pv, bb, s)
+                go(s, path, conds + [c] if c is not None else conds)
+            return
+        for s in fn.succs(bb):
+            if s in path or fn.blocks[s]["cleanup"]:
+                continue
+            go(s, path, conds)
+
+    go(0, [], [])
+    return rows
